@@ -6,6 +6,7 @@ import (
 	"go/constant"
 	"go/token"
 	"go/types"
+	"os"
 	"sort"
 	"strings"
 
@@ -540,6 +541,12 @@ func (c *Ctx) checkConstantTablesAST() {
 		}
 		return true
 	})
+	if !defF32 || !lenGate {
+		// however Init is factored: walked for a node without attributes, with a value of one and of two elements
+		if known, d, l := c.cosInitTable(); known {
+			defF32, lenGate = defF32 || d, lenGate || l
+		}
+	}
 	c.decide(defF32, "R14", "R14:cos:default", c.pos(cosInit.Pos()), "default value is float32(0)", "ConstantOfShape's default value is not float32 zero")
 	c.decide(lenGate, "R14", "R14:cos:one-element", c.pos(cosInit.Pos()), "a value tensor with other than one element is refused", "ConstantOfShape accepts value tensors with more than one element")
 	posGate, dtypeFrom := false, false
@@ -575,7 +582,8 @@ func (c *Ctx) checkConstantTablesAST() {
 			t = c.applyTerm(oi.methods["Apply"])
 			c.termInline, c.termMemo = saved, nil
 		}
-		okFill := strings.HasPrefix(t, "AddScalar(New(") && strings.Contains(t, "),.value,true)") && !strings.Contains(t, "WithBacking")
+		// (in place or not: the receiver is the zero tensor this call has just built)
+		okFill := strings.HasPrefix(t, "AddScalar(New(") && (strings.Contains(t, "),.value,true)") || strings.HasSuffix(t, "),.value,true,UseUnsafe())")) && !strings.Contains(t, "WithBacking")
 		c.decide(okFill, "R14", "R14:cos:fill", c.pos(oi.methods["Apply"].Pos()), "the result is a new zero tensor of the requested shape plus the value (gorgonia's AddScalar): every element is the value",
 			"ConstantOfShape's result is not New(shape, type of value).AddScalar(value): "+t+" - whether every element becomes the value cannot be established")
 	}
@@ -1217,4 +1225,102 @@ func (c *Ctx) cosPositiveDimsTable(apply *ssa.Function) (known, ok bool) {
 		}
 	}
 	return true, true
+}
+
+// cosInitTable walks ConstantOfShape.Init on three nodes: no attribute (the value must become a tensor built from
+// the float32 constant zero), a `value` tensor of one element (accepted) and of two elements (refused). The decoder
+// and gorgonia's constructors are abstract; Len() of the tensor built over the decoded data answers the cell's
+// element count.
+func (c *Ctx) cosInitTable() (known, defaultF32, oneElement bool) {
+	oi := c.opByName("ConstantOfShape")
+	onnxPkg := c.pkgByPath[pkgOnnx]
+	if oi == nil || oi.methods["Init"] == nil || onnxPkg == nil {
+		return false, false, false
+	}
+	st := c.libInit()
+	if len(st.failed) > 0 {
+		return false, false, false
+	}
+	init := oi.methods["Init"]
+	type res struct {
+		followed, isErr bool
+		scalarZeroF32   bool
+	}
+	run := func(withValue bool, nElems int64) res {
+		heap := st.heap.clone()
+		b := &rtBuilder{c: c, heap: heap, onnx: onnxPkg.Types}
+		tproto := b.obj(onnxPkg.Types, "TensorProto", map[string]pval{})
+		var attrs []pval
+		if withValue {
+			attrs = append(attrs, b.obj(onnxPkg.Types, "AttributeProto", map[string]pval{"Name": {k: pStr, s: "value"}, "T": tproto}))
+		}
+		node := b.obj(onnxPkg.Types, "NodeProto", map[string]pval{"Attribute": b.list(attrs...)})
+		recv := heap.newObj(oi.named)
+		p := &pinterp{c: c, budget: 300000, objects: true, globals: st.globals, trace: os.Getenv("COSTRACE") != ""}
+		var out res
+		next := int64(9300)
+		p.extModel = func(key string, call *ssa.Call, ops []pval, h *pheap) ([]pval, bool) {
+			switch key {
+			case pkgTensor + ".FromScalar":
+				if len(call.Common().Args) == 1 {
+					v := call.Common().Args[0]
+					if mi, ok := v.(*ssa.MakeInterface); ok {
+						v = mi.X
+					}
+					if k, ok := v.(*ssa.Const); ok && k.Value != nil && constant.Sign(k.Value) == 0 {
+						if bt, ok := k.Type().Underlying().(*types.Basic); ok && bt.Kind() == types.Float32 {
+							out.scalarZeroF32 = true
+						}
+					}
+				}
+				next++
+				return []pval{{k: pAbs, i: next, s: "option"}}, true
+			case pkgTensor + ".WithBacking", pkgTensor + ".WithShape", pkgTensor + ".Of":
+				next++
+				return []pval{{k: pAbs, i: next, s: "option"}}, true
+			case pkgTensor + ".New":
+				next++
+				return []pval{{k: pAbs, i: next, s: "tensor"}}, true
+			}
+			return nil, false
+		}
+		p.onInvoke = func(fn *ssa.Function, call *ssa.Call, recvV pval, method string, args []pval, h *pheap) ([]pval, bool) {
+			if recvV.k == pAbs && recvV.s == "tensor" {
+				switch method {
+				case "Len", "Size", "DataSize":
+					return []pval{{k: pInt, i: nElems}}, true
+				case "Data":
+					return []pval{{k: pAbs, i: 9201, s: "data"}}, true
+				case "Dtype":
+					return []pval{{k: pAbs, i: 9202, s: "dtype"}}, true
+				}
+			}
+			return nil, false
+		}
+		p.intercept = func(fn *ssa.Function, call *ssa.Call, callee *ssa.Function, args []pval, h *pheap) ([]pval, bool) {
+			if fnPkgPath(callee) == pkgOnnx && callee.Name() == "TensorFromProto" && callee.Parent() == nil {
+				return []pval{{k: pAbs, i: 9200, s: "tensor"}, {k: pNil}}, true
+			}
+			return nil, false
+		}
+		r, h := p.run(init, []pval{recv, node}, 0, heap)
+		if p.aborted || len(r) != 1 || h == nil {
+			return out
+		}
+		switch {
+		case nonNilKind(r[0].k):
+			out.followed, out.isErr = true, true
+		case r[0].k == pNil:
+			out.followed = true
+		}
+		return out
+	}
+	none, one, two := run(false, 1), run(true, 1), run(true, 2)
+	if os.Getenv("COSDEBUG") != "" {
+		fmt.Printf("COSDEBUG none=%+v one=%+v two=%+v\n", none, one, two)
+	}
+	if !none.followed || !one.followed || !two.followed {
+		return false, false, false
+	}
+	return true, !none.isErr && none.scalarZeroF32, !one.isErr && two.isErr
 }
